@@ -15,7 +15,7 @@ RULE = ("random interactive sessions of 5..25 actions drawn from {foreground / b
         "shell / group of helper k / other, state (running / stopped / gone) and process group of every helper from /proc, and every job "
         "line, announcement and fg/bg diagnostic printed; compared with the replay of the same action list through Model/Term.lean (every "
         "delivery order of a terminal signal tried; sessions on which the orders disagree are not generated) and with the reference world "
-        "of Spec/C07.lean. non-trivial = distinct sessions containing a foreground wait ended by Ctrl-Z, Ctrl-C or a signal")
+        "of Spec/C07.lean. A session whose observable state settles on something else than the model predicts is run a second time and reported if it differs again (an unreproduced difference is noted in the evidence). non-trivial = distinct sessions containing a foreground wait ended by Ctrl-Z, Ctrl-C or a signal")
 TRUSTED = ["vlib/pty07.py (pty driver, /proc parsing, classification of printed job lines) and helpers/sleeper.c",
            "Linux process-group / tty semantics as far as Model/Term.lean states them (tcsetpgrp accepts a live pid of the session; one "
            "unreported status change per child; SIGINT stays pending on a stopped process)"]
@@ -117,7 +117,7 @@ def sweep(root):
     return n
 
 
-def run_session(cicada, sb_dir, c, expected, seed):
+def run_session(cicada, sb_dir, c, expected, seed, retry=True):
     d = tempfile.mkdtemp(prefix=c.id + "-", dir=sb_dir)
     cfg = {"cicada": cicada, "helpers": os.path.join(core.BUILD, "helpers"), "dir": d, "acts": c.fields[0], "expected": expected,
            "delay_seed": seed}
@@ -132,6 +132,16 @@ def run_session(cicada, sb_dir, c, expected, seed):
     except ValueError:
         res = {"obs": [], "error": "worker produced no result: %s" % (p.stderr or "")[-300:], "log": []}
     res["wall"] = time.time() - t0
+    if res.get("aborted_at") is not None and not res.get("error") and retry:
+        # the observable state settled on something else than the model predicts: run the session once more, so that a
+        # hiccup of the machine or of this driver is not reported as a property of the shell; a difference that shows
+        # again is reported with the second observation
+        first = res
+        _, res = run_session(cicada, sb_dir, c, expected, seed + 1, retry=False)
+        res["wall"] += first["wall"]
+        if res.get("aborted_at") is None and not res.get("error"):
+            res.setdefault("slow", []).append("UNREPRODUCED difference in a first run (second run agrees with the model): %s" % "; ".join(first.get("log", [])))
+            res["unreproduced"] = 1
     return c.id, res
 
 
@@ -181,6 +191,7 @@ def process(tier, rng, cicada):
         kept.append(c)
         nact += len(res["obs"])
         STATS["slowest_session_s"] = max(STATS.get("slowest_session_s", 0), round(res["wall"], 2))
+        STATS["unreproduced_differences"] = STATS.get("unreproduced_differences", 0) + res.get("unreproduced", 0)
     STATS["sessions_run"] = len(kept)
     STATS["actions_observed"] = nact
     STATS["pty_wall_s"] = round(time.time() - t0, 1)
@@ -241,3 +252,7 @@ def post(rep):
     rep.notes.extend(NOTES[:20])
     if STATS.get("harness_errors"):
         print("[check] C07: %d session(s) dropped as harness errors (see evidence notes)" % STATS["harness_errors"], flush=True)
+    if STATS.get("unreproduced_differences"):
+        print("[check] C07: %d session(s) differed from the model in a first run and agreed in a second (see evidence notes)" % STATS["unreproduced_differences"], flush=True)
+    if not STATS.get("sessions_run"):
+        print("[check] C07: WARNING no session could be run: this check has observed nothing", flush=True)
